@@ -1,5 +1,5 @@
 """Rule registry: rule id -> function(Program) -> RuleResult; positive controls on /verif/fixtures."""
-from . import order, effects, proto, deadline, guard, coord
+from . import order, effects, proto, deadline, guard, coord, tables
 
 RULES = {
     "G1": order.rule_G1,
@@ -16,6 +16,8 @@ RULES = {
     "E1": guard.rule_E1,
     "A1": coord.rule_A1, "A2": coord.rule_A2, "A3": coord.rule_A3, "A4": coord.rule_A4,
     "A5": coord.rule_A5, "A6": coord.rule_A6, "A7": coord.rule_A7,
+    "F1": tables.rule_F1, "F2": tables.rule_F2, "F3": tables.rule_F3, "F4": tables.rule_F4, "F5": tables.rule_F5,
+    "F6": tables.rule_F6, "F7": tables.rule_F7, "F8": tables.rule_F8, "F9": tables.rule_F9,
     "C1": deadline.rule_C1,
     "C2": deadline.rule_C2,
     "C3": deadline.rule_C3,
@@ -23,4 +25,33 @@ RULES = {
     "C5": deadline.rule_C5,
 }
 
-CONTROLS = []
+
+
+def _fires(rule_fn, fn_part, key_part=None, silent_fn=None, opts=False):
+    """Control: the rule reports a finding in the known-bad fixture function (and none in its good twin)."""
+    def ctl(fx):
+        res = rule_fn(fx, {"tier": "quick"}) if getattr(rule_fn, "wants_opts", False) else rule_fn(fx)
+        hit = [f for f in res.findings if fn_part in f.fn and (key_part is None or key_part in f.key)]
+        if silent_fn is not None and any(silent_fn in f.fn for f in res.findings):
+            return False
+        return bool(hit)
+    return ctl
+
+
+CONTROLS = [
+    {"name": "G1-swap-without-rewrite", "rule": "G1", "fn": _fires(order.rule_G1, "g1_bad_swap", silent_fn="g1_good_swap")},
+    {"name": "D2-unsorted-hash-iteration", "rule": "D2", "fn": _fires(effects.rule_D2, "d2_bad_unsorted", silent_fn="d2_good_sorted")},
+    {"name": "D3-clock-outside-deadline-support", "rule": "D3", "fn": _fires(effects.rule_D3, "d3_bad_clock")},
+    {"name": "D4-item-ordering", "rule": "D4", "fn": _fires(effects.rule_D4, "d4_bad_order")},
+    {"name": "B1-let-underscore", "rule": "B1", "fn": _fires(proto.rule_B1, "b1_bad_ignored")},
+    {"name": "B1-dot-ok", "rule": "B1", "fn": _fires(proto.rule_B1, "b1_bad_ok")},
+    {"name": "B2-call-after-error", "rule": "B2", "fn": _fires(proto.rule_B2, "b2_bad_after_error")},
+    {"name": "B3-finish-twice", "rule": "B3", "fn": _fires(proto.rule_B3, "algorithms::lcs::diff")},
+    {"name": "E1-unguarded-length", "rule": "E1", "fn": _fires(guard.rule_E1, "e1_a1_bad")},
+    {"name": "A1-literal-zero-position", "rule": "A1", "fn": _fires(coord.rule_A1, "e1_a1_bad")},
+    {"name": "A2-relative-index", "rule": "A2", "fn": _fires(coord.rule_A2, "a2_bad_index")},
+    {"name": "A4-mixed-range", "rule": "A4", "fn": _fires(coord.rule_A4, "a2_bad_index")},
+    {"name": "C1-none-deadline", "rule": "C1", "fn": _fires(deadline.rule_C1, "c1_bad_carrier")},
+    {"name": "C3-unprobed-nest", "rule": "C3", "fn": _fires(deadline.rule_C3, "c1_callee")},
+    {"name": "C5-branch-on-deadline", "rule": "C5", "fn": _fires(deadline.rule_C5, "c1_bad_carrier")},
+]
